@@ -53,7 +53,11 @@ impl<'a> G<'a> {
         let r = self.rng.below(if depth == 0 { 6 } else { 16 });
         match r {
             0 | 1 => tag("set", vec![ts(IVARS[self.rng.below(IVARS.len())]), self.expr(2)]),
-            2 => tag("incr", vec![ts(IVARS[self.rng.below(IVARS.len())]), ti(self.rng.below(5) as i64 - 2)]),
+            2 => {
+                // now and then the target is a variable nobody has set yet (it starts from 0)
+                let name = if self.rng.chance(1, 5) { "u" } else { IVARS[self.rng.below(IVARS.len())] };
+                tag("incr", vec![ts(name), ti(self.rng.below(7) as i64 - 3)])
+            }
             3 => {
                 let k = 1 + self.rng.below(2);
                 let args: Vec<Term> = (0..k).map(|_| self.expr(1)).collect();
@@ -96,12 +100,12 @@ impl<'a> G<'a> {
             }
             10 | 11 => {
                 // foreach over a literal list of ints, or over a list variable
-                let nv = 1 + self.rng.below(2);
-                let vars: Vec<Term> = (0..nv).map(|i| ts(["a", "b"][i])).collect();
+                let nv = 1 + self.rng.below(3);
+                let vars: Vec<Term> = (0..nv).map(|i| ts(["a", "b", "z"][i])).collect();
                 let src = if self.rng.chance(1, 3) {
                     tag("lvar", vec![ts(LVARS[self.rng.below(2)])])
                 } else {
-                    let n = self.rng.below(5);
+                    let n = self.rng.below(6);
                     tag("llit", vec![tl((0..n).map(|_| ti(self.rng.below(9) as i64)).collect())])
                 };
                 tag("foreach", vec![tl(vars), src, self.block(depth - 1, true, in_proc)])
@@ -237,7 +241,7 @@ pub fn mk(rng: &mut Rng, depth: usize) -> Term {
     tl(vec![
         ti(0),
         tstrs(&[INIT, &text]),
-        tstrs(&["x", "y", "z", "w", "l", "m", "a", "b"]),
+        tstrs(&["x", "y", "z", "w", "l", "m", "a", "b", "u"]),
         tree,
     ])
 }
